@@ -108,6 +108,47 @@ def pos_of(pos, off):
 DOC_ITEMS = {
     'LuaDocument': {'src': {'file': DOC, 'kind': 'struct', 'name': 'LuaDocument'},
                     'rules': [('struct-fields', {'keep': ['text', 'line_index']})]},
+    'LuaDocument::get_line': doc_fn(
+        'get_line', ret='r',
+        requires=DOC_OK,
+        ensures='r matches Some(l) && on_line(self.line_index, self.text.spec_bytes(), offset.raw as int, l as int) /*@C22.doc.get_line*/'),
+    # C19: the region of `disable-next-line` is [comment.start, end of the line after the comment's last line)
+    'diagnostic_tags::next_line_scope': {
+        'src': {'kind': 'slice', 'name': 'next_line_scope',
+                'in': {'file': 'crates/emmylua_code_analysis/src/compilation/analyzer/doc/diagnostic_tags.rs', 'kind': 'fn', 'name': 'analyze_diagnostic_disable_next_line'},
+                'from': r'let comment_end_line = document\.get_line\(comment_range\.end\(\)\)\?;',
+                'to': r'let valid_range = TextRange::new\(comment_range\.start\(\), line_range\.end\(\)\);',
+                'head': 'pub fn next_line_scope(document: &LuaDocument, comment_range: TextRange) -> Option<TextRange>',
+                'tail': 'Some(valid_range)'},
+        'ret': 'r',
+        'requires': 'wf(document.line_index, document.text.spec_bytes()), comment_range.wf()',
+        'ensures': '''r matches Some(v) ==> v.wf() && v.start == comment_range.start
+            && exists|l: int| on_line(document.line_index, document.text.spec_bytes(), comment_range.end.raw as int, l)
+                && v.end.raw == line_end(document.line_index, document.text.spec_bytes(), l + 1) /*@C19.next-line.scope-is-comment-plus-one-line*/''',
+        'proof': [(r'let line_range = document\.get_line_range\(comment_end_line \+ 1\)\?;', 'before',
+                   'proof { assert(document.line_index.line_offsets.len() == document.line_index.line_offsets@.len()); }   // a Vec length is a usize: `+ 1` cannot overflow'),
+                  (r'let line_range = document\.get_line_range\(comment_end_line \+ 1\)\?;', 'after', '''
+proof {
+    let li = document.line_index; let b = document.text.spec_bytes();
+    lemma_line_facts(li, b, comment_end_line as int);
+    lemma_line_facts(li, b, comment_end_line as int + 1);
+}''')],
+    },
+    # C19: the region of `disable-line` is exactly the comment's (last) line
+    'diagnostic_tags::line_scope': {
+        'src': {'kind': 'slice', 'name': 'line_scope',
+                'in': {'file': 'crates/emmylua_code_analysis/src/compilation/analyzer/doc/diagnostic_tags.rs', 'kind': 'fn', 'name': 'analyze_diagnostic_disable_line'},
+                'from': r'let comment_end_line = document\.get_line\(comment_range\.end\(\)\)\?;',
+                'to': r'let valid_range = document\.get_line_range\(comment_end_line\)\?;',
+                'head': 'pub fn line_scope(document: &LuaDocument, comment_range: TextRange) -> Option<TextRange>',
+                'tail': 'Some(valid_range)'},
+        'ret': 'r',
+        'requires': 'wf(document.line_index, document.text.spec_bytes()), comment_range.wf()',
+        'ensures': '''r matches Some(v) ==> v.wf()
+            && exists|l: int| on_line(document.line_index, document.text.spec_bytes(), comment_range.end.raw as int, l)
+                && v.start.raw == document.line_index.line_offsets@[l]
+                && v.end.raw == line_end(document.line_index, document.text.spec_bytes(), l) /*@C19.line.scope-is-own-line*/''',
+    },
     'LuaDocument::get_line_col': doc_fn(
         'get_line_col', ret='r',
         requires=DOC_OK + ', ' + in_text('offset'),
@@ -156,6 +197,24 @@ proof {
     lemma_position_fits(self.line_index, b, range.end.raw as int, end.0 as int);
     lemma_line_col_monotonic(self.line_index, b, range.start.raw as int, start.0 as int, range.end.raw as int, end.0 as int);
 }""")]),
+    'DiagnosticContext': {'src': {'file': 'crates/emmylua_code_analysis/src/diagnostic/checker/mod.rs', 'kind': 'struct', 'name': 'DiagnosticContext'},
+                          'rules': [('struct-fields', {'keep': ['file_id', 'db']})]},
+    'DiagnosticContext::translate_range': {
+        'src': {'file': 'crates/emmylua_code_analysis/src/diagnostic/checker/mod.rs', 'kind': 'fn', 'impl': 'DiagnosticContext', 'name': 'translate_range'},
+        'ret': 'r',
+        # checkers pass ranges of syntax nodes/tokens: ordered, inside the text, on char boundaries
+        'requires': '''range.wf(),
+            sp_file_bytes(sp_vfs(self.db), self.file_id) matches Some(b) ==> range.end.raw <= b.len()
+                && is_char_boundary(b, range.start.raw as int) && is_char_boundary(b, range.end.raw as int)''',
+        'ensures': 'r matches Some(rg) ==> pos_le(rg.start, rg.end) /*@C21.translate-range-wellformed*/',
+        'proof': [(r'let \(end_line, end_character\) = document\.get_line_col\(range\.end\(\)\)\?;', 'after', '''
+proof {
+    let b = document.text.spec_bytes();
+    lemma_position_fits(document.line_index, b, range.start.raw as int, start_line as int);
+    lemma_position_fits(document.line_index, b, range.end.raw as int, end_line as int);
+    lemma_line_col_monotonic(document.line_index, b, range.start.raw as int, start_line as int, range.end.raw as int, end_line as int);
+}''')],
+    },
     'LuaDocument::to_lsp_position': doc_fn(
         'to_lsp_position', ret='r',
         requires=DOC_OK + ', ' + in_text('offset'),
@@ -304,6 +363,15 @@ invariant
         {'name': 'doc-rowan-range-end-col-from-start', 'item': 'LuaDocument::to_rowan_range',
          'pattern': r'range\.end\.character as usize', 'repl': 'range.start.character as usize',
          'expect': r'C22\.doc\.to_rowan_range\.clamped'},
+        {'name': 'next-line-scope-two-lines', 'item': 'diagnostic_tags::next_line_scope',
+         'pattern': r'get_line_range\(comment_end_line \+ 1\)', 'repl': 'get_line_range(comment_end_line + 2)',
+         'expect': r'C19\.next-line'},
+        {'name': 'next-line-scope-from-line-start', 'item': 'diagnostic_tags::next_line_scope',
+         'pattern': r'TextRange::new\(comment_range\.start\(\), line_range\.end\(\)\)', 'repl': 'TextRange::new(line_range.start(), line_range.end())',
+         'expect': r'C19\.next-line'},
+        {'name': 'line-scope-next-line', 'item': 'diagnostic_tags::line_scope',
+         'pattern': r'get_line_range\(comment_end_line\)', 'repl': 'get_line_range(comment_end_line + 1)',
+         'expect': r'C19\.line\.'},
         {'name': 'doc-line-range-empty', 'item': 'LuaDocument::get_line_range',
          'pattern': r'get_line_offset\(line \+ 1\)', 'repl': 'get_line_offset(line)',
          'expect': r'C22\.doc\.line-range'},
@@ -330,7 +398,7 @@ invariant
         'that every LuaDocument is built with line_index == LineIndex::parse(text) (Vfs) is the stated representation invariant, not proved here',
         'UTF-16 column weight (C23): cw(c) == 1 is used in lemma_cols_len only',
     ],
-    'allow': [r'external_body', r'assume_specification<I: core::slice::SliceIndex<str>>'],
+    'allow': [r'external_body', r'assume_specification<I: core::slice::SliceIndex<str>>', r'uninterp spec fn sp_(vfs|file_bytes)'],
     'min_obligations': 60,
     'trusted': [
         'text-size shim (units/common/textsize.rs), cross-checked by Kani against the real crate (thorough tier)',
